@@ -49,6 +49,9 @@ class Mod:
         if not os.environ.get("LXS_NO_RENAME"):
             from . import names
             self.renames = names.canonicalise(self.tree, rel)
+        # `==` / `!=` are read in the orientation the pinned tree uses (or constant on the right)
+        if not os.environ.get("LXS_NO_CMPCANON"):
+            _nm.canon_eq(self.tree, rel)
         self.classes = {}
         self.functions = {}
         self.assigns = {}        # module-level NAME -> value node (last binding)
@@ -116,7 +119,7 @@ def norm(node):
 _COMM = (ast.BitAnd, ast.BitOr, ast.BitXor, ast.Add, ast.Mult)
 
 
-def cnorm(node):
+def cnorm(node, eqsym=False):
     """norm() modulo commutativity/associativity of & | ^ + *: chains are flattened and their operands sorted by text.  For
     comparisons between two expressions of the analysed source (twins, expected shapes) that must not depend on operand order."""
     if isinstance(node, str):
@@ -144,6 +147,12 @@ def cnorm(node):
             for x in ops[1:]:
                 out = ast.BinOp(left=out, op=n.op, right=x)
             return out
+
+        def visit_Compare(self, n):
+            self.generic_visit(n)
+            if eqsym and len(n.ops) == 1 and isinstance(n.ops[0], (ast.Eq, ast.NotEq)) and norm(n.comparators[0]) < norm(n.left):
+                n.left, n.comparators[0] = n.comparators[0], n.left
+            return n
     import copy as _copy
     return norm(ast.fix_missing_locations(T().visit(_copy.deepcopy(node))))
 
